@@ -23,5 +23,13 @@ def run(tier, seed):
         res.assumptions.append("lexer contracts (progress, error rules always advance) not built")
     from props import tables
     res.add(tables.error_channel_obligations("C06"))
+    # the explicit `raise ValueError` lines of _parse_constant are unreachable only because the lexer never produces an
+    # integer constant with an ill-formed suffix: the language obligations of the integer rules are the callee contract
+    from pyvc import rx_obligations
+    rx = rx_obligations.c10_obligations(tier)
+    rx.obs = [o for o in rx.obs if o.name.startswith("C10/lang/INT_CONST_") and "INT_CONST_CHAR" not in o.name]
+    for o in rx.obs:
+        o.name = "C06/rx/" + o.name[4:]
+    res.add(rx)
     res.assumptions.append("RecursionError on inputs nested deeper than the interpreter's recursion limit is tolerated by the property")
     return res
